@@ -46,7 +46,7 @@ SWIFT_KEYWORDS = ["associatedtype", "class", "deinit", "enum", "extension", "fil
 
 
 def to_pascal(s):
-    all_upper = s.upper() == s
+    all_upper = rust_all_uppercase(s)       # no lowercase letter of any script (rename.rs: is_all_uppercase)
     out, cap = [], True
     for ch in s:
         if ch == "_":
